@@ -23,7 +23,7 @@ def table_event(eid, u, seed=0, opts=None, full_pairs_upto=6, n_pairs=400, n_spe
     rng = random.Random(seed)
     ev = {'id': eid, 'kind': 'table', 'u': u, 'raised': '', 'd': 0, 'sigrep': [], 'start': 0, 'pqr': [0, 0, 0],
           'names': [], 'bins': [], 'b2c': [], 'signs': [], 'cayley': [], 'prods': [], 'spelled': [],
-          'opts': opts or {}}
+          'ifg': [], 'typenums': [], 'opts': opts or {}}
     try:
         alg = K.make_algebra(u, **algebra_options(opts or {}))
     except Exception as e:   # noqa: BLE001
@@ -38,6 +38,19 @@ def table_event(eid, u, seed=0, opts=None, full_pairs_upto=6, n_pairs=400, n_spe
     ev['names'] = [_digits(nm) for nm in alg.canon2bin.keys()]
     ev['bins'] = [int(b) for b in alg.canon2bin.values()]
     ev['b2c'] = [_digits(alg.bin2canon[b]) for b in range(n)]
+    # indices_for_grade(s) and type_number (pure functions of the configuration / the key set)
+    if d <= 6:
+        import itertools as _it
+        gsets = [tuple(g) for k in range(0, d + 2) for g in _it.combinations(range(d + 1), k)]
+        if len(gsets) > 24:
+            gsets = rng.sample(gsets, 24)
+        for gs in gsets:
+            ev['ifg'].append([list(gs), [int(b) for b in alg.indices_for_grades[gs]]])
+        from kingdon import MultiVector
+        for _ in range(8 if d <= 4 else 0):      # type numbers have 2^d bits: TLC integers are 32-bit
+            keys = rng.sample(range(n), rng.randint(0, min(n, 5)))
+            mv = MultiVector.fromkeysvalues(alg, tuple(keys), [1] * len(keys))
+            ev['typenums'].append([[int(k) for k in keys], int(mv.type_number)])
     # sign table: complete up to d = full_pairs_upto; above that (lazy tables for d > 6) a random
     # sequence of look-ups that contains both orders of every sampled pair
     if d <= full_pairs_upto:
